@@ -263,7 +263,7 @@ func init() {
 	})
 
 	facet.Register(facet.F[Pair]{
-		Prop: "C07", Name: "depth1/exhaustive", Rule: "all ordered pairs of types of depth <= 1 over {bool,number,string,dynamic,capsuleA} x {list,set,map,tuple(0..2),object(0..2 attrs a,b with optional toggles)}; every pair counts",
+		Prop: "C07", Name: "depth1/exhaustive", Rule: "all ordered pairs of types of depth <= 1 over {bool,number,string,dynamic,capsuleA,capsuleA2 (same name and native type, distinct identity)} x {list,set,map,tuple(0..2),object(0..2 attrs a,b with optional toggles)}; every pair counts",
 		Exhaustive: func() []Pair {
 			ts := depth1Types()
 			var out []Pair
@@ -293,7 +293,7 @@ func init() {
 }
 
 func depth1Types() []spec.T {
-	leaves := []spec.T{spec.Bool, spec.Number, spec.String, spec.Dynamic, spec.CapsuleT("A")}
+	leaves := []spec.T{spec.Bool, spec.Number, spec.String, spec.Dynamic, spec.CapsuleT("A"), spec.CapsuleT("A2")}
 	out := append([]spec.T(nil), leaves...)
 	for _, l := range leaves {
 		out = append(out, spec.List(l), spec.Set(l), spec.Map(l))
